@@ -477,6 +477,7 @@ class CircWorld(StateWorld):
                 self.probes["roundtrip_through_nontrivial_image"] += 1
         self.oracle_steps += 1
         self.nontrivial = True
+        self.states.add(hash(tuple(rm.pstr(p) for p in before) if kind != "state" else before.key()) & 0xFFFFFFFFFFFF)
         return kind
 
     def _a_roundtrip(self, op):
